@@ -9,6 +9,7 @@ use alloc::collections::BTreeMap;
 use alloc::string::{String, ToString};
 
 use alloc::{rc::Rc, vec::Vec};
+use chrono::{NaiveDateTime, Utc};
 use regex::Regex;
 
 use crate::variable::VariableInfo;
@@ -19,6 +20,7 @@ pub struct Session {
     text_parts: Vec<String>,
     language: String,
     position: Cell<usize>,
+    now: Cell<Option<NaiveDateTime>>,
 
     pub(crate) variables: RefCell<BTreeMap<String, Rc<VariableInfo>>>
 }
@@ -33,7 +35,8 @@ impl Session {
             text_parts: Vec::new(),
             language: String::new(),
             variables: RefCell::new(BTreeMap::new()),
-            position: Cell::default()
+            position: Cell::default(),
+            now: Cell::new(None)
         }
     }
 
@@ -76,6 +79,21 @@ impl Session {
         }
     }
     
+    /// Take one reading of the clock; until `release_clock` every part of the
+    /// evaluation (today, default year, time anchors, year elision) sees it.
+    pub(crate) fn freeze_clock(&self) {
+        self.now.set(Some(Utc::now().naive_utc()));
+    }
+
+    pub(crate) fn release_clock(&self) {
+        self.now.set(None);
+    }
+
+    /// The instant the current text is evaluated at (UTC).
+    pub(crate) fn now(&self) -> NaiveDateTime {
+        self.now.get().unwrap_or_else(|| Utc::now().naive_utc())
+    }
+
     pub(crate) fn add_variable(&self, variable_info: Rc<VariableInfo>) {
         self.variables.borrow_mut().insert(variable_info.to_string(), variable_info);
     }
